@@ -72,13 +72,14 @@ def gen(ctx):
                    inner=rng.choice(["hash:%d:3:1:0" % k, "probe:%d:2:1:0" % k]), rand=int(rng.random() < 0.3),
                    seed=rng.randrange(10 ** 6))
     for _ in range(ctx.n(200, 2000)):
-        R, C = rng.choice([(1, 3), (2, 2), (2, 3), (3, 3), (3, 4), (3, 1)])
+        R, C = rng.choice([(1, 3), (2, 2), (2, 3), (3, 3), (3, 4), (3, 1), (5, 4), (4, 6)])
         cells = [(i, j) for i in range(R) for j in range(C)]
         rng.shuffle(cells)
         order = cells if rng.random() < 0.5 else cells[:rng.randint(1, len(cells))]
         k = rng.randint(2, 4)
         yield dict(kind="as2", hist=[[[rng.randrange(k) for _ in range(C)] for _ in range(R)]],
-                   order=[list(x) for x in order], T=rng.randint(1, min(14, 3 * len(order) + 2)), r=1,
+                   order=[list(x) for x in order], T=rng.randint(1, min(14, 3 * len(order) + 2)),
+                   r=rng.choice([1, 1, 2, 3]) if min(R, C) >= 3 else rng.choice([1, 1, min(R, C)]),      # the centre of a (2r+1)^2 block, any r
                    nb=rng.choice(["moore", "vn"]), inner=rng.choice(["hash:%d:3:1:0" % k, "probe:%d:2:1:0" % k]),
                    rand=int(rng.random() < 0.3), seed=rng.randrange(10 ** 6))
     for _ in range(ctx.n(60, 600)):
